@@ -344,6 +344,12 @@ func (w *c16World) gen(uids []string, kinds []int) *c16Cmd {
 				}
 			}
 			ch := w.chans[t.Intn(len(w.chans))]
+			if (c.kind == "read" || c.kind == "hide" || c.kind == "activate") && !t.Chance(1, 4) {
+				// personal commands mostly address memberships that exist
+				if ex := w.existing(c.hs, u); len(ex) > 0 {
+					ch = ex[t.Intn(len(ex))]
+				}
+			}
 			if seen[u+"|"+ch] {
 				continue
 			}
@@ -410,6 +416,18 @@ func (w *c16World) gen(uids []string, kinds []int) *c16Cmd {
 		w.r.Infra("encode %s: %v", c.kind, err)
 	}
 	return c
+}
+
+// existing lists the group channels user u has a row for (sorted).
+func (w *c16World) existing(hs uint16, u string) []string {
+	var out []string
+	for k := range w.m.rows {
+		if k.hs == hs && k.uid == u && k.typ == 2 {
+			out = append(out, k.ch)
+		}
+	}
+	sort.Strings(out)
+	return out
 }
 
 func rowEq(a, b metadb.UserChannelMembership) bool { return a == b }
@@ -682,7 +700,7 @@ func runC16(r *simkit.Run) {
 	injected := false
 	all := append(append([]string(nil), w.users...), w.others...)
 	//                  upsert read hide act tomb ensure cmdup cmdack cmdtomb
-	mix := []int{8, 5, 3, 3, 2, 2, 2, 3, 1}
+	mix := []int{8, 5, 3, 3, 2, 2, 3, 3, 1}
 
 	for step := 0; step < steps && !r.Failed() && r.InfraErr == ""; step++ {
 		switch t.Weighted([]int{10, 3, 2}) {
